@@ -23,7 +23,7 @@ AS = (1 / 64, 0.25, 0.5, 2.0, 3.0, 10.0, 64.0, 100.0)
 
 def REQUIRED(tier):
     return [f"scale:{m}" for m in SCALES] + ["axis:None", "axis:0", "axis:1", "shape:one_lane", "shape:2d", "shape:1d", "class:constant", "class:zeros", "class:mixed_lanes", "class:ties",
-                                             "class:outliers", "equivariance_checks", "zscore_checks", "lane_checks", "a<0", "via_block", "via_timeseries", "layout:F", "layout:T_view", "dtype:float64_input", "input_unchanged_checks", "class:constant_nonround", "zscore_norm_location_checks", "dtype:unsigned_input", "long_strided_lane_checks"]
+                                             "class:outliers", "equivariance_checks", "zscore_checks", "lane_checks", "a<0", "via_block", "via_timeseries", "layout:F", "layout:T_view", "dtype:float64_input", "input_unchanged_checks", "class:constant_nonround", "zscore_norm_location_checks", "dtype:unsigned_input", "long_strided_lane_checks", "class:smooth"]
 
 
 def cases(tier, seed):
@@ -46,6 +46,10 @@ def _data(rng, shape, cls):
         return x
     if cls == "constant":
         return np.full(shape, float(rng.integers(-100, 100)), dtype=np.float32)
+    if cls == "smooth":   # a slow baseline under small noise: successive differences are positively correlated
+        n_ = int(np.prod(shape))
+        t = np.arange(n_, dtype=np.float64).reshape(shape) if len(shape) == 1 else np.add.outer(np.arange(shape[0]) * 3.0, np.arange(shape[1], dtype=np.float64)) if shape[1] >= shape[0] else np.add.outer(np.arange(shape[0], dtype=np.float64), np.arange(shape[1]) * 3.0)
+        return (np.round(300.0 * np.sin(t / 6.0)) + rng.integers(-2, 3, size=shape)).astype(np.float32)
     if cls == "constant_nonround":   # constants that are not small integers: sums of squares are inexact, a one-pass variance may go negative
         return np.full(shape, float(rng.choice([0.1, 3.3, -17.77, 1234.567, 0.37 * 7 + 11.3])), dtype=np.float32)
     if cls == "zeros":
@@ -134,7 +138,7 @@ def _one(case, j, ctx):
     else:
         axis = int(rng.integers(0, 2))
         shape = (nlane, 1) if axis == 0 else (1, nlane)
-    cls = str(rng.choice(["uniform", "normal", "ties", "constant", "outliers", "zeros", "mixed_lanes"], p=[0.25, 0.2, 0.12, 0.08, 0.15, 0.05, 0.15]))
+    cls = str(rng.choice(["uniform", "normal", "ties", "constant", "outliers", "zeros", "mixed_lanes", "smooth"], p=[0.22, 0.18, 0.12, 0.08, 0.12, 0.05, 0.13, 0.10]))
     a = float(rng.choice(AS) * rng.choice([-1, 1]))
     b = float(rng.integers(-1000, 1000))
     if j % 12 == 5:
